@@ -1,4 +1,5 @@
 (* Props/C03.v — property C03: event stream framing. *)
+From CV Require Proofs.FramingP.
 From CV Require Import Model.Base Model.Events Model.Contract Model.Sched Proofs.BaseP Proofs.SchedP Proofs.SchedP2 Proofs.SchedP3
   Proofs.SchedP4 Proofs.SchedP7.
 
@@ -53,3 +54,71 @@ Example C03_nonvacuous :
 Proof.
   split; [vm_compute; reflexivity|]. split; cbn; repeat constructor; cbn; intuition discriminate.
 Qed.
+
+
+(* ---------- THE FRAMING CLAUSES THE CONTRACT AUTOMATON DOES NOT DEMAND (review finding M4) ----------
+   `contract` accepts a stream with no ParsingFinished, a parser error after ParsingFinished, and empty brackets.
+   `FramingP.framing_ok` is a second executable recogniser for exactly these clauses (parser automaton: at most one
+   ParsingFinished, no parser error after it, its error count = the errors seen, none missing at run-Finished, nothing
+   after run-Finished; bracket automata: a Feature / Rule Finished only after a scenario event of that feature / rule
+   inside the bracket). Every run satisfies it; no hypothesis on the input (duplicate ids included). *)
+Theorem C03_framing_of_every_run :
+  forall c ls s tr, exec c ls = Some (s, tr) -> FramingP.framing_prefix tr = true.
+Proof. exact FramingP.framing_prefix_holds. Qed.
+Print Assumptions C03_framing_of_every_run.
+
+Theorem C03_framing_of_every_complete_run :
+  forall c ls s tr, exec c ls = Some (s, tr) -> pc s = Done -> FramingP.framing_ok_for ls tr = true.
+Proof. exact FramingP.framing_ok_for_holds. Qed.
+Print Assumptions C03_framing_of_every_complete_run.
+
+(* the same as plain statements about lists. "Every parser error exactly once and in order": *)
+Theorem C03_parser_errors_exactly_once_in_order :
+  forall c ls s tr, exec c ls = Some (s, tr) -> FramingP.perrs_tr tr = FramingP.perrs_of ls.
+Proof. exact FramingP.parser_errors_exact. Qed.
+Print Assumptions C03_parser_errors_exactly_once_in_order.
+
+(* "exactly one ParsingFinished after them whose counts equal the features, rules, scenarios, steps and parser errors
+   actually received": at most one in every prefix, nothing of the parser after it, the counts of the INPUT ... *)
+Theorem C03_parsing_finished_once_after_the_errors_with_the_counts_of_the_input :
+  forall c ls s tr p a b c0 d e q,
+    exec c ls = Some (s, tr) -> tr = p ++ EvParsingFinished a b c0 d e :: q ->
+    (forall x, In x p -> FramingP.is_pf x = false) /\ (forall x, In x q -> FramingP.parser_ev x = false) /\
+    e = N.of_nat (length (FramingP.perrs_tr tr)) /\ FramingP.perrs_tr tr = FramingP.perrs_of ls /\
+    (a, b, c0, d, e) = FramingP.counts_of ls.
+Proof. exact FramingP.run_parsing_finished_once. Qed.
+Print Assumptions C03_parsing_finished_once_after_the_errors_with_the_counts_of_the_input.
+
+(* ... and exactly one in a complete run, then exactly one run-Finished, last *)
+Theorem C03_complete_run_shape :
+  forall c ls s tr, exec c ls = Some (s, tr) -> pc s = Done ->
+    exists p q, let '(a, b, c0, d, e) := FramingP.counts_of ls in
+      tr = p ++ EvParsingFinished a b c0 d e :: q ++ [EvFinished] /\
+      (forall x, In x p -> FramingP.is_pf x = false /\ x <> EvFinished) /\
+      (forall x, In x q -> FramingP.parser_ev x = false /\ x <> EvFinished) /\
+      FramingP.perrs_tr p = FramingP.perrs_of ls.
+Proof. exact FramingP.run_complete_shape. Qed.
+Print Assumptions C03_complete_run_shape.
+
+(* "Features and rules with nothing to run produce no bracket at all": a bracket that closes contains a scenario event *)
+Theorem C03_no_empty_feature_bracket :
+  forall c ls s tr pre f post, exec c ls = Some (s, tr) -> tr = pre ++ EvFeatF f :: post ->
+    exists p1 p2 r sc rt x p3, pre = p1 ++ EvFeatS f :: p2 ++ EvScen f r sc rt x :: p3 /\
+      ~ In (EvFeatS f) (p2 ++ EvScen f r sc rt x :: p3) /\ ~ In (EvFeatF f) (p2 ++ EvScen f r sc rt x :: p3).
+Proof. exact FramingP.run_feature_bracket_not_empty. Qed.
+Print Assumptions C03_no_empty_feature_bracket.
+
+Theorem C03_no_empty_rule_bracket :
+  forall c ls s tr pre f r post, exec c ls = Some (s, tr) -> tr = pre ++ EvRuleF f r :: post ->
+    exists p1 p2 sc rt x p3, pre = p1 ++ EvRuleS f r :: p2 ++ EvScen f (Some r) sc rt x :: p3 /\
+      ~ In (EvRuleS f r) (p2 ++ EvScen f (Some r) sc rt x :: p3) /\ ~ In (EvRuleF f r) (p2 ++ EvScen f (Some r) sc rt x :: p3).
+Proof. exact FramingP.run_rule_bracket_not_empty. Qed.
+Print Assumptions C03_no_empty_rule_bracket.
+
+(* the three streams the reviewer showed `contract` to accept are rejected; a run with a rule, a retry, two concurrent
+   attempts and a parser error is accepted *)
+Example C03_framing_is_discriminating :
+  FramingP.framing_ok [EvStarted; EvFinished] = false /\
+  FramingP.framing_ok [EvStarted; EvParsingFinished 0 0 0 0 0; EvParseErr 1; EvFinished] = false /\
+  FramingP.framing_ok [EvStarted; EvFeatS 1; EvRuleS 1 2; EvRuleF 1 2; EvFeatF 1; EvFinished] = false.
+Proof. vm_compute. repeat split; reflexivity. Qed.
